@@ -68,13 +68,17 @@ def sliceStr (base : Nat) (s : Slice) : String := hexOf s.bytes ++ "@" ++ toStri
 def listStr (xs : List String) : String := if xs.isEmpty then "-" else String.intercalate "," xs
 
 /-- The `<key>.adapt` value (PROTOCOL.md §5, iterator adaptors) from the full list of rendered
-    elements: `count;last;skip(1);nth(2);step_by(2);next() then nth(1)`. The model has no separate
-    adaptors, they are the list operations. -/
+    elements: `count;last;skip(1);nth(2);step_by(2);next() then nth(1);next() then count();`
+    `skip(1).count();peekable() peek() for_each;zip of two`. The model has no separate adaptors,
+    they are the list operations. -/
 def adaptStr (xs : List String) : String :=
   let opt (o : Option String) : String := o.getD "none"
   let evens := (xs.zipIdx.filter (fun p => p.2 % 2 == 0)).map (·.1)
   String.intercalate ";" [toString xs.length, opt xs.getLast?, listStr xs.tail, opt xs[2]?,
-    listStr evens, opt xs[2]?]
+    listStr evens, opt xs[2]?,
+    -- the rest after one `next()`, `skip(1)`: one element less (truncated subtraction);
+    -- `peek()` does not consume; two iterators of the same list zip to its length
+    toString (xs.length - 1), toString (xs.length - 1), listStr xs, toString xs.length]
 
 /-- The elements an iterator yields, rendered; `cap` if the model ran out of fuel. -/
 inductive Elems where
@@ -427,5 +431,12 @@ def dumpView (pfx : String) (kind : PKind) (d : Bytes) : Out :=
   | .rpsi => fci .rpsi "rpsi"
   | .pli => fci .pli ""
   | .custom pt min => dumpCustom pfx 0 pt min d
+
+/-- `dumpView` followed by `again_same` (PROTOCOL.md §4.1): the model's accessors are functions of
+    the parsed value, a second call or another call order cannot change them: always `true`; not
+    reported for inputs longer than 70000 bytes. -/
+def dumpViewAgain (pfx : String) (kind : PKind) (d : Bytes) : Out :=
+  let o := dumpView pfx kind d
+  if d.length > 70000 then o else o.push (pfx ++ "again_same", "true")
 
 end Driver
